@@ -378,6 +378,19 @@ func (c *Ctx) ruleRadix16(cfg string) {
 		obj := in.NewObject("Bytes()", types.NewArray(types.Typ[types.Uint8], 32), arr)
 		return []absint.Val{absint.SliceV{Obj: obj, Len: 32, Cap: 32}}
 	}
+	d.Prims["(*Scalar).bytes"] = func(in *absint.Interp, site ssa.Instruction, args []absint.Val) []absint.Val {
+		arr := &absint.Agg{Elems: make([]absint.Val, 32)}
+		for i := range arr.Elems {
+			hi := int64(255)
+			if i == 31 {
+				hi = 16
+			}
+			arr.Elems[i] = d.Sym(fmt.Sprintf("b%d", i), big.NewInt(0), big.NewInt(hi))
+		}
+		in.Store(site, args[1], arr)
+		pr, _ := args[1].(absint.Ptr)
+		return []absint.Val{absint.SliceV{Obj: pr.Obj, Path: pr.Path, Len: 32, Cap: 32}}
+	}
 	in := absint.New(p, d)
 	sc := absint.Ptr{Obj: in.NewObject("s", p.Root.Members["Scalar"].Type(), nil)}
 	out := in.Run(f, []absint.Val{sc})
@@ -429,4 +442,107 @@ func (c *Ctx) ruleRadix16(cfg string) {
 		o.Detail = fmt.Sprintf("recoding: sum identity %v, digit range %v, failing machine obligations %d; %s", same, rangeOK, bad, worst)
 	}
 	c.Set.Add(o)
+}
+
+// nafSum is Σ name.n_i · 2^i.
+func nafSum(d *absint.GroupDom, name string) *poly.Poly {
+	s := d.R.Int(0)
+	for i := 0; i < 256; i++ {
+		s = s.Add(d.R.Var(fmt.Sprintf("%s.n%d", name, i)).Scale(new(big.Int).Lsh(big.NewInt(1), uint(i))))
+	}
+	return s
+}
+
+// ruleVarTimeLoops: the two variable-time drivers, with the data-dependent
+// branches on NAF digits joined (not enumerated), compute Σ_j [Σ_i n_{j,i}·2^i]·P_j.
+func (c *Ctx) ruleVarTimeLoops(cfg string) {
+	p := c.Prog(cfg)
+	if p == nil {
+		return
+	}
+	emit := func(key, fname string, ok bool, good, bad string) {
+		o := report.Obligation{Rule: "GROUP", Key: key, Config: cfg, OK: ok, Detail: good}
+		if f := p.ByName[fname]; f != nil {
+			o.Pos = p.Rel(f.Pos())
+		}
+		if !ok {
+			o.Detail = bad
+		}
+		c.Set.Add(o)
+	}
+	msg := func(out absint.Outcome) string {
+		if out.Kind == absint.ExitPanic {
+			return "abstract execution panics: " + out.PanicMsg
+		}
+		return out.Undecided
+	}
+	// VarTimeDoubleScalarBaseMult
+	for _, al := range []string{"fresh receiver", "used receiver", "v=A"} {
+		fname := "(*Point).VarTimeDoubleScalarBaseMult"
+		f := c.anchor(p, fname)
+		if f == nil {
+			break
+		}
+		s := c.newGroup(cfg)
+		A := s.point("A", s.d.Sym("A"))
+		v := s.point("v", &absint.GV{Invalid: true})
+		switch al {
+		case "used receiver":
+			v = s.point("v", s.d.Sym("OLD"))
+		case "v=A":
+			v = A
+		}
+		out := s.in.Run(f, []absint.Val{v, s.scalar("a"), A, s.scalar("b")})
+		key := "GROUP/" + fname + "[" + al + "]"
+		if out.Kind != absint.ExitReturn {
+			emit(key, fname, false, "", msg(out))
+			continue
+		}
+		got, _ := v.Obj.Val.(*absint.GV)
+		want := &absint.GV{Terms: map[string]*poly.Poly{"A": nafSum(s.d, "a"), "B": nafSum(s.d, "b")}}
+		emit(key, fname, got != nil && got.Equal(want), fmt.Sprintf("with the %d data-dependent digit branches joined (both sides of each agree, the skipped case being the digit-0 specialisation), the 256-step loop leaves the receiver at [Σ a_i·2^i]·A + [Σ b_i·2^i]·B for width-5/width-8 NAF digits a_i, b_i", s.in.Merges), fmt.Sprintf("VarTimeDoubleScalarBaseMult (%s) yields %v", al, got))
+	}
+	// VarTimeMultiScalarMult, n = 0..2
+	{
+		fname := "(*Point).VarTimeMultiScalarMult"
+		f := c.anchor(p, fname)
+		pt := p.Root.Members["Point"].Type()
+		st := p.Root.Members["Scalar"].Type()
+		for n := 0; f != nil && n <= 2; n++ {
+			variants := []string{"fresh receiver", "used receiver"}
+			for j := 0; j < n; j++ {
+				variants = append(variants, fmt.Sprintf("v=points[%d]", j))
+			}
+			for _, al := range variants {
+				s := c.newGroup(cfg)
+				var pts, scs []absint.Ptr
+				want := &absint.GV{Terms: map[string]*poly.Poly{}}
+				for j := 0; j < n; j++ {
+					pts = append(pts, s.point(fmt.Sprintf("p%d", j), s.d.Sym(fmt.Sprintf("P%d", j))))
+					scs = append(scs, s.scalar(fmt.Sprintf("k%d", j)))
+					want.Terms[fmt.Sprintf("P%d", j)] = nafSum(s.d, fmt.Sprintf("k%d", j))
+				}
+				v := s.point("v", &absint.GV{Invalid: true})
+				if al == "used receiver" {
+					v = s.point("v", s.d.Sym("OLD"))
+				} else if strings.HasPrefix(al, "v=points[") {
+					var j int
+					fmt.Sscanf(al, "v=points[%d]", &j)
+					v = pts[j]
+				}
+				var ps, ss absint.Val = s.ptrSlice(pt, pts), s.ptrSlice(st, scs)
+				if n == 0 {
+					ps, ss = absint.Nil{}, absint.Nil{}
+				}
+				out := s.in.Run(f, []absint.Val{v, ss, ps})
+				key := fmt.Sprintf("GROUP/%s[n=%d,%s]", fname, n, al)
+				if out.Kind != absint.ExitReturn {
+					emit(key, fname, false, "", msg(out))
+					continue
+				}
+				got, _ := v.Obj.Val.(*absint.GV)
+				emit(key, fname, got != nil && got.Equal(want), fmt.Sprintf("with %d terms and %d joined digit branches the receiver ends at Σ_j [Σ_i n_{j,i}·2^i]·P_j (the identity for n=0)", n, s.in.Merges), fmt.Sprintf("VarTimeMultiScalarMult (n=%d, %s) yields %v, expected %v", n, al, got, want))
+			}
+		}
+	}
 }
